@@ -195,6 +195,7 @@ type artFacts struct {
 	SkiOK       bool   `json:"skiOk"`       // SKI = SHA-1(own subjectPublicKey bits)
 	HasPrivate  bool   `json:"hasPrivate"`  // a PRIVATE KEY block is in the file
 	HasRequest  bool   `json:"hasRequest"`  // a CERTIFICATE REQUEST block is in the file
+	ReqSha      string `json:"reqSha"`      // SHA-1 of that block's DER
 	HashUnknown bool   `json:"hashUnknown"` // a hash line is present that was never seen written
 	CertErr     string `json:"certErr,omitempty"`
 }
@@ -340,6 +341,9 @@ func (w *repoWorld) project(ht *hashTable) (*absState, map[string]*artFacts) {
 				}
 			}
 			fa.HasRequest = p.Csr != nil
+			if p.Csr != nil {
+				fa.ReqSha = project.SHA1Hex(p.Csr)
+			}
 			s.CfgNewer[e] = false
 			if cf, has := w.fs.Files[w.l.Path[e]]; has {
 				s.CfgNewer[e] = cf.MTick > f.MTick
@@ -884,7 +888,7 @@ func foreignCertAndKey(cn string, prof int) []byte {
 
 func foreignCsr(cn string) []byte {
 	k := foreignKey()
-	der, err := x509.CreateCertificateRequest(rand.Reader, &x509.CertificateRequest{Subject: pkix.Name{CommonName: cn}}, k)
+	der, err := x509.CreateCertificateRequest(rand.Reader, richCsrTemplate(cn), k)
 	if err != nil {
 		panic(err)
 	}
